@@ -39,7 +39,7 @@ MON_PROP = {
     "oversize_not_refused": ("C08",), "granted_early": ("C08",), "grant_existing_key": ("C08",), "refused_within_capacity": ("C08",),
     "free_space_query_failed": ("C08",), "grant_over_live_segment": ("C08",),
     "stale_disk_job_hit_new_dataset": ("C08", "C09"),
-    "bytes_mismatch": ("C09",), "bytes_changed_during_read": ("C09",), "get_before_writer_closed": ("C09",),
+    "stale_writer_close_applied": ("C09",), "bytes_mismatch": ("C09",), "bytes_changed_during_read": ("C09",), "get_before_writer_closed": ("C09",),
     "pageout_during_read": ("C09",), "pageout_during_write": ("C09",), "unlink_during_read": ("C09",),
     "get_granted_without_segment": ("C09",), "get_unknown_granted": ("C09",), "deser_fun_mismatch": ("C09",),
     "get_error_on_held_key": ("C09",), "wait_forever": ("C09",),
@@ -194,6 +194,9 @@ class World:
         self._dir: str | None = None
         self.fail_file_open = False
         self.pending: list[tuple[str, str, tuple]] = []  # (kind, shmid, args)
+        self.rewrite = False       # option: a purged key may be allocated again while the old writer is still open
+        self.old_writers: dict = {}
+        self.late_old_close: set = set()
         self.purge_mid = False     # option: a purge may be handled in the middle of a page-out job
         self.eager = None          # armed variant: jobs submitted by the next request complete inline
         self.arm_used = self.eager_fired = self.allow_arm = False
@@ -332,10 +335,12 @@ class World:
     def enabled(self, max_readers: int = 2) -> list[tuple]:
         evs: list[tuple] = []
         for k in self.sizes:
-            if k not in self.writers:
-                evs.append(("alloc", k))
-            else:
+            if k not in self.writers or (self.rewrite and k not in self.ref_known and not self.old_writers.get(k)):
+                evs.append(("alloc", k))  # also by another client while the writer of a purged incarnation is still open
+            if k in self.writers:
                 evs.append(("wclose", k))
+            if self.old_writers.get(k):
+                evs.append(("owclose", k))
             if len(self.readers.get(k, [])) < max_readers:
                 evs.append(("get", k))
             for i in range(len(self.readers.get(k, []))):
@@ -425,6 +430,8 @@ class World:
         elif ans.startswith("refused"):
             self.bad("refused_within_capacity", "request within capacity refused with an error", f"alloc {k} -> {ans}")
         if ans == "granted":
+            if k in self.writers:  # the writer of the purged incarnation has not closed yet
+                self.old_writers.setdefault(k, []).append(self.writers.pop(k))
             self.incarnation[k] = self.incarnation.get(k, 0) + 1
             self.shmid2key[buf.shm.name] = k
             buf.view()[:size] = self.pattern(k)
@@ -446,6 +453,22 @@ class World:
         self.last_answer = "ok"
         if k in self.ref_known and k in self.ref_resident:
             self.ref_written.add(k)
+
+    def ev_owclose(self, k: str) -> None:
+        """the writer of an earlier, purged incarnation of the key finally closes"""
+        buf = self.old_writers[k].pop(0)
+        st = lambda: (self.mgr.datasets[k].status.name if k in self.mgr.datasets else None)  # noqa: E731
+        before = st()
+        try:
+            buf.close()
+            self.last_answer = "ok"
+        except ValueError:
+            self.last_answer = "wclose-error"
+        if k in self.writers and st() != before:
+            # root cause reported here; what follows from it (early reads, page-out under the writer, a refused close of
+            # the real writer) is not explored further
+            self.bad("stale_writer_close_applied", "the close of the writer of an earlier, purged incarnation was applied to the re-allocated dataset, whose own writer is still open",
+                     f"key {k}: {before} -> {st()}")
 
     def ev_get(self, k: str) -> None:
         try:
@@ -682,6 +705,7 @@ class World:
             tuple(sorted((k, d.created < (self.aged_at or 0), tuple(sorted(t < (self.aged_at or 0) for t in d.ongoing_reads.values()))) for k, d in m.datasets.items())),
             tuple(sorted(self.ref_resident)), tuple(sorted(self.ref_known)), tuple(sorted(self.ref_ondisk)),
             tuple(sorted(self.ref_written)), tuple(sorted(self.ref_delayed)),
+            tuple(sorted((k, len(v)) for k, v in self.old_writers.items() if v)), tuple(sorted(self.late_old_close)),
             tuple(sorted(a for a in self.abandoned if self.incarnation.get(a[0], 0) == a[1] and a[0] in self.ref_known)),
         )
 
@@ -692,6 +716,7 @@ def build(cfg: dict, hist: list, real: bool = False) -> World:
     w.split = bool(cfg.get("split"))
     w.allow_arm = bool(cfg.get("eager"))
     w.purge_mid = bool(cfg.get("purge_mid"))
+    w.rewrite = bool(cfg.get("rewrite"))
     for ev in hist:
         w.apply(tuple(ev))
     return w
